@@ -62,6 +62,11 @@ func runC14(c *Ctx) {
 	if p == nil {
 		return
 	}
+	// shared with C13: what MultipleMatch returns does not depend on the order in which its goroutines delivered - the
+	// matches are sorted before the duplicates are removed (R13.6)
+	if c.R.Filter == nil {
+		borrowRules(c, []string{"R13.6"}, runC13)
+	}
 	c.R.Assume("guarded-by table (confirmed by reading): Classifier.values -> muValues; knownValue.set -> muValues (write-once lazy init); matcher.queue -> matcher.mu; nearestMatch's pq -> its local mu")
 	c.R.Assume("sync.Mutex/RWMutex/WaitGroup provide the documented happens-before edges; fields written only in composite literals before publication are immutable afterwards")
 	fns := pkgFuncs(p, scPkg)
@@ -265,6 +270,50 @@ func runC14(c *Ctx) {
 
 	// ---- R14.4: queues in goroutines --------------------------------------------------
 	checkQueueMutex(c, p, fns, flows)
+
+	// ---- R14.9: no lock is copied -----------------------------------------------------
+	// a method with a value receiver (or a parameter passed by value) of a type that contains a mutex works on a copy of
+	// the lock: what it locks protects nothing, and a copy taken while a writer holds the lock can never be locked again
+	{
+		var hasLock func(t types.Type, depth int) bool
+		hasLock = func(t types.Type, depth int) bool {
+			if depth > 4 {
+				return false
+			}
+			if core.IsNamedType(t, "sync", "Mutex") || core.IsNamedType(t, "sync", "RWMutex") || core.IsNamedType(t, "sync", "WaitGroup") {
+				return true
+			}
+			if st, ok := t.Underlying().(*types.Struct); ok {
+				for i := 0; i < st.NumFields(); i++ {
+					if hasLock(st.Field(i).Type(), depth+1) {
+						return true
+					}
+				}
+			}
+			return false
+		}
+		nSig, bad := 0, ""
+		for _, f := range fns {
+			for _, prm := range f.Params {
+				nSig++
+				if _, isPtr := prm.Type().Underlying().(*types.Pointer); !isPtr && hasLock(prm.Type(), 0) {
+					bad = core.ShortFn(f) + " takes " + prm.Name() + " (" + core.TypeName(prm.Type()) + ") by value"
+				}
+			}
+			// a whole-struct load of a lock-bearing value
+			for _, b := range f.Blocks {
+				for _, in := range b.Instrs {
+					if ld, ok := in.(*ssa.UnOp); ok && ld.Op == token.MUL && hasLock(ld.Type(), 0) {
+						if _, isLockItself := ld.Type().Underlying().(*types.Struct); isLockItself && !(core.IsNamedType(ld.Type(), "sync", "Mutex") || core.IsNamedType(ld.Type(), "sync", "RWMutex") || core.IsNamedType(ld.Type(), "sync", "WaitGroup")) {
+							bad = core.ShortFn(f) + " copies a " + core.TypeName(ld.Type()) + " (" + p.Pos(ld.Pos()) + ")"
+						}
+					}
+				}
+			}
+		}
+		c.R.Check(bad == "", "R14.9", "stringclassifier: no value that contains a mutex is copied", scPkg, fmt.Sprintf("%d parameters and receivers examined", nSig),
+			bad+": the copy's lock is not the classifier's lock - readers that take it race with AddValue, and a copy made while the lock is held is locked forever")
+	}
 
 	// ---- R14.6: a known value is complete before it is published ----------------------
 	checkPublishAfterInit(c, p, fns, kvName, setField)
